@@ -70,16 +70,20 @@ def outcome : CmdOutcome → String
 def handle (fields : List String) : Option String :=
   match fields with
   | ["balance", fl, j] => some (
-    match parseFlags fl, (parseJournal j).bind Knut.Driver.C04.toDirectives with
-    | some f, some ds => outcome (BalanceCmd.run f ds)
+    match parseFlags fl, (parseJournal j).map Knut.Driver.C04.load with
+    | some f, some (.ok ids) => outcome (BalanceCmd.run f (ids.map (·.2)))
+    | some _, some .error => "error load"
+    | some _, some (.panic s) => "panic " ++ hexStr s
     | none, _ => "bad-flags"
-    | _, none => "unsupported")
+    | _, none => "bad-journal")
   | ["print", j] => some (
     -- `knut print`: check, then journal.Print
-    match (parseJournal j).bind Knut.Driver.C04.toDirectives with
-    | none => "unsupported"
-    | some ds =>
-      let days := (Builder.ofList ds).build
+    match (parseJournal j).map Knut.Driver.C04.load with
+    | none => "bad-journal"
+    | some .error => "error"
+    | some (.panic s) => "panic " ++ hexStr s
+    | some (.ok ids) =>
+      let days := (Builder.ofList (ids.map (·.2))).build
       match Check.run days with
       | .error _ => "error"
       | .ok _ => "ok " ++ hexStr (JournalPrinter.print days))
@@ -94,10 +98,12 @@ def handle (fields : List String) : Option String :=
           s!"{D}:{showO (Spec.mtm v days a D)}:{showO (Spec.mtm v days a F)}:{Spec.steps days a F D}"))))
     | _, _, _ => "bad-op")
   | ["balance-spec", fl, j] => some (
-    match parseFlags fl, (parseJournal j).bind Knut.Driver.C04.toDirectives with
-    | some f, some ds => if f.valuation.isSome then "unsupported" else outcome (BalanceCmd.runSpec f ds)
+    match parseFlags fl, (parseJournal j).map Knut.Driver.C04.load with
+    | some f, some (.ok ids) => if f.valuation.isSome then "unsupported" else outcome (BalanceCmd.runSpec f (ids.map (·.2)))
+    | some _, some .error => "error load"
+    | some _, some (.panic s) => "panic " ++ hexStr s
     | none, _ => "bad-flags"
-    | _, none => "unsupported")
+    | _, none => "bad-journal")
   | _ => none
 
 end Knut.Driver.Balance
